@@ -392,7 +392,9 @@ func vndIntrinsic(in *Interp, st *State, fn *ssa.Function, args []Value, retTo s
 			if in.slowMs > 0 && in.sol.LastQuery.Milliseconds() > int64(in.slowMs) {
 				fmt.Printf("SLOWQ %dms assert %q -> %s\n", in.sol.LastQuery.Milliseconds(), l, r)
 			}
-			if in.second != "" && r != "unknown" {
+			in.assertQueries++
+			// second opinion: the first 10 assertion queries of every task, then every 50th
+			if in.second != "" && r != "unknown" && (in.assertQueries <= 10 || in.assertQueries%50 == 0) {
 				second = oneShot(in.second, in.sol.flatText(""), in.sol.timeout)
 				in.eng.noteSecond(r, second)
 			}
